@@ -134,7 +134,8 @@ def run(ck):
     ctor = [f2 for f2 in prog.funcs.values() if f2.cls == H + "Private::ParserImpl<Pistache::Http::Request>" and f2.d.get("ctor")]
     ck.require(ctor, "ParserImpl<Request> constructor not found")
     installed = set()
-    for e in ctor[0].events("call"):
+    creg0 = lib.region(prog, ctor[0], within=lambda g_: g_.cls and (g_.cls == ctor[0].cls or g_.cls == H + "Private::ParserBase"))
+    for e in [x for g_ in creg0 for x in g_.events("call")]:
         c = e.get("callee") or ""
         t = e.get("t") or ""
         if c == "std::make_unique" and t.startswith("std::make_unique<") and "Step" in t:
